@@ -202,3 +202,63 @@ Proofs/Total.vos Proofs/Total.vok Proofs/Total.required_vos: Proofs/Total.v Mode
 Properties/C13.vo Properties/C13.glob Properties/C13.v.beautified Properties/C13.required_vo: Properties/C13.v Model.vo Mon/C13.vo Proofs/Probe.vo Proofs/Frames.vo Proofs/Fuel.vo Proofs/Total.vo
 Properties/C13.vio: Properties/C13.v Model.vio Mon/C13.vio Proofs/Probe.vio Proofs/Frames.vio Proofs/Fuel.vio Proofs/Total.vio
 Properties/C13.vos Properties/C13.vok Properties/C13.required_vos: Properties/C13.v Model.vos Mon/C13.vos Proofs/Probe.vos Proofs/Frames.vos Proofs/Fuel.vos Proofs/Total.vos
+Mon/C18b.vo Mon/C18b.glob Mon/C18b.v.beautified Mon/C18b.required_vo: Mon/C18b.v Model.vo Spec/Tables.vo Mon/C12.vo Mon/C18.vo
+Mon/C18b.vio: Mon/C18b.v Model.vio Spec/Tables.vio Mon/C12.vio Mon/C18.vio
+Mon/C18b.vos Mon/C18b.vok Mon/C18b.required_vos: Mon/C18b.v Model.vos Spec/Tables.vos Mon/C12.vos Mon/C18.vos
+Spec/ResolverTests.vo Spec/ResolverTests.glob Spec/ResolverTests.v.beautified Spec/ResolverTests.required_vo: Spec/ResolverTests.v Model.vo Mon/C03.vo Mon/C04.vo Spec/FirstViolation.vo
+Spec/ResolverTests.vio: Spec/ResolverTests.v Model.vio Mon/C03.vio Mon/C04.vio Spec/FirstViolation.vio
+Spec/ResolverTests.vos Spec/ResolverTests.vok Spec/ResolverTests.required_vos: Spec/ResolverTests.v Model.vos Mon/C03.vos Mon/C04.vos Spec/FirstViolation.vos
+Proofs/ResolutionBase.vo Proofs/ResolutionBase.glob Proofs/ResolutionBase.v.beautified Proofs/ResolutionBase.required_vo: Proofs/ResolutionBase.v Model.vo Spec/Stack.vo Mon/C03.vo Proofs/Trace.vo Proofs/InvNames.vo Proofs/DefUse.vo
+Proofs/ResolutionBase.vio: Proofs/ResolutionBase.v Model.vio Spec/Stack.vio Mon/C03.vio Proofs/Trace.vio Proofs/InvNames.vio Proofs/DefUse.vio
+Proofs/ResolutionBase.vos Proofs/ResolutionBase.vok Proofs/ResolutionBase.required_vos: Proofs/ResolutionBase.v Model.vos Spec/Stack.vos Mon/C03.vos Proofs/Trace.vos Proofs/InvNames.vos Proofs/DefUse.vos
+Proofs/ResolutionLogic.vo Proofs/ResolutionLogic.glob Proofs/ResolutionLogic.v.beautified Proofs/ResolutionLogic.required_vo: Proofs/ResolutionLogic.v Model.vo Spec/Stack.vo Mon/C03.vo Proofs/Trace.vo Proofs/InvNames.vo Proofs/DefUse.vo Proofs/ResolutionBase.vo
+Proofs/ResolutionLogic.vio: Proofs/ResolutionLogic.v Model.vio Spec/Stack.vio Mon/C03.vio Proofs/Trace.vio Proofs/InvNames.vio Proofs/DefUse.vio Proofs/ResolutionBase.vio
+Proofs/ResolutionLogic.vos Proofs/ResolutionLogic.vok Proofs/ResolutionLogic.required_vos: Proofs/ResolutionLogic.v Model.vos Spec/Stack.vos Mon/C03.vos Proofs/Trace.vos Proofs/InvNames.vos Proofs/DefUse.vos Proofs/ResolutionBase.vos
+Proofs/ResolutionExpr.vo Proofs/ResolutionExpr.glob Proofs/ResolutionExpr.v.beautified Proofs/ResolutionExpr.required_vo: Proofs/ResolutionExpr.v Model.vo Spec/Stack.vo Spec/Tables.vo Mon/C03.vo Proofs/Trace.vo Proofs/InvNames.vo Proofs/DefUse.vo Proofs/ResolutionBase.vo Proofs/ResolutionLogic.vo
+Proofs/ResolutionExpr.vio: Proofs/ResolutionExpr.v Model.vio Spec/Stack.vio Spec/Tables.vio Mon/C03.vio Proofs/Trace.vio Proofs/InvNames.vio Proofs/DefUse.vio Proofs/ResolutionBase.vio Proofs/ResolutionLogic.vio
+Proofs/ResolutionExpr.vos Proofs/ResolutionExpr.vok Proofs/ResolutionExpr.required_vos: Proofs/ResolutionExpr.v Model.vos Spec/Stack.vos Spec/Tables.vos Mon/C03.vos Proofs/Trace.vos Proofs/InvNames.vos Proofs/DefUse.vos Proofs/ResolutionBase.vos Proofs/ResolutionLogic.vos
+Proofs/ResolutionStmt.vo Proofs/ResolutionStmt.glob Proofs/ResolutionStmt.v.beautified Proofs/ResolutionStmt.required_vo: Proofs/ResolutionStmt.v Model.vo Spec/Stack.vo Spec/Tables.vo Mon/C03.vo Proofs/Trace.vo Proofs/InvNames.vo Proofs/DefUse.vo Proofs/ResolutionBase.vo Proofs/ResolutionLogic.vo Proofs/ResolutionExpr.vo
+Proofs/ResolutionStmt.vio: Proofs/ResolutionStmt.v Model.vio Spec/Stack.vio Spec/Tables.vio Mon/C03.vio Proofs/Trace.vio Proofs/InvNames.vio Proofs/DefUse.vio Proofs/ResolutionBase.vio Proofs/ResolutionLogic.vio Proofs/ResolutionExpr.vio
+Proofs/ResolutionStmt.vos Proofs/ResolutionStmt.vok Proofs/ResolutionStmt.required_vos: Proofs/ResolutionStmt.v Model.vos Spec/Stack.vos Spec/Tables.vos Mon/C03.vos Proofs/Trace.vos Proofs/InvNames.vos Proofs/DefUse.vos Proofs/ResolutionBase.vos Proofs/ResolutionLogic.vos Proofs/ResolutionExpr.vos
+Proofs/Resolution.vo Proofs/Resolution.glob Proofs/Resolution.v.beautified Proofs/Resolution.required_vo: Proofs/Resolution.v Model.vo Spec/Stack.vo Mon/C03.vo Proofs/Trace.vo Proofs/InvNames.vo Proofs/DefUse.vo Proofs/ResolutionBase.vo Proofs/ResolutionLogic.vo Proofs/ResolutionExpr.vo Proofs/ResolutionStmt.vo
+Proofs/Resolution.vio: Proofs/Resolution.v Model.vio Spec/Stack.vio Mon/C03.vio Proofs/Trace.vio Proofs/InvNames.vio Proofs/DefUse.vio Proofs/ResolutionBase.vio Proofs/ResolutionLogic.vio Proofs/ResolutionExpr.vio Proofs/ResolutionStmt.vio
+Proofs/Resolution.vos Proofs/Resolution.vok Proofs/Resolution.required_vos: Proofs/Resolution.v Model.vos Spec/Stack.vos Mon/C03.vos Proofs/Trace.vos Proofs/InvNames.vos Proofs/DefUse.vos Proofs/ResolutionBase.vos Proofs/ResolutionLogic.vos Proofs/ResolutionExpr.vos Proofs/ResolutionStmt.vos
+Proofs/ResolutionReading.vo Proofs/ResolutionReading.glob Proofs/ResolutionReading.v.beautified Proofs/ResolutionReading.required_vo: Proofs/ResolutionReading.v Model.vo Mon/C03.vo Proofs/Trace.vo Proofs/InvNames.vo Proofs/ResolutionBase.vo
+Proofs/ResolutionReading.vio: Proofs/ResolutionReading.v Model.vio Mon/C03.vio Proofs/Trace.vio Proofs/InvNames.vio Proofs/ResolutionBase.vio
+Proofs/ResolutionReading.vos Proofs/ResolutionReading.vok Proofs/ResolutionReading.required_vos: Proofs/ResolutionReading.v Model.vos Mon/C03.vos Proofs/Trace.vos Proofs/InvNames.vos Proofs/ResolutionBase.vos
+Properties/C03.vo Properties/C03.glob Properties/C03.v.beautified Properties/C03.required_vo: Properties/C03.v Model.vo Mon/C03.vo Proofs/ResolutionBase.vo Proofs/ResolutionLogic.vo Proofs/ResolutionReading.vo Proofs/Resolution.vo Spec/ResolverTests.vo
+Properties/C03.vio: Properties/C03.v Model.vio Mon/C03.vio Proofs/ResolutionBase.vio Proofs/ResolutionLogic.vio Proofs/ResolutionReading.vio Proofs/Resolution.vio Spec/ResolverTests.vio
+Properties/C03.vos Properties/C03.vok Properties/C03.required_vos: Properties/C03.v Model.vos Mon/C03.vos Proofs/ResolutionBase.vos Proofs/ResolutionLogic.vos Proofs/ResolutionReading.vos Proofs/Resolution.vos Spec/ResolverTests.vos
+Proofs/FlowBasic.vo Proofs/FlowBasic.glob Proofs/FlowBasic.v.beautified Proofs/FlowBasic.required_vo: Proofs/FlowBasic.v Model.vo Spec/Stack.vo Spec/Exec.vo Mon/Control.vo Proofs/Trace.vo Proofs/InvNames.vo Proofs/InvLabels.vo Proofs/Resolve.vo Proofs/ExecBasic.vo Proofs/DefUse.vo
+Proofs/FlowBasic.vio: Proofs/FlowBasic.v Model.vio Spec/Stack.vio Spec/Exec.vio Mon/Control.vio Proofs/Trace.vio Proofs/InvNames.vio Proofs/InvLabels.vio Proofs/Resolve.vio Proofs/ExecBasic.vio Proofs/DefUse.vio
+Proofs/FlowBasic.vos Proofs/FlowBasic.vok Proofs/FlowBasic.required_vos: Proofs/FlowBasic.v Model.vos Spec/Stack.vos Spec/Exec.vos Mon/Control.vos Proofs/Trace.vos Proofs/InvNames.vos Proofs/InvLabels.vos Proofs/Resolve.vos Proofs/ExecBasic.vos Proofs/DefUse.vos
+Proofs/FlowSem.vo Proofs/FlowSem.glob Proofs/FlowSem.v.beautified Proofs/FlowSem.required_vo: Proofs/FlowSem.v Model.vo Spec/Stack.vo Spec/Exec.vo Proofs/Trace.vo Proofs/InvNames.vo Proofs/InvLabels.vo Proofs/Resolve.vo Proofs/ExecBasic.vo Proofs/FlowBasic.vo
+Proofs/FlowSem.vio: Proofs/FlowSem.v Model.vio Spec/Stack.vio Spec/Exec.vio Proofs/Trace.vio Proofs/InvNames.vio Proofs/InvLabels.vio Proofs/Resolve.vio Proofs/ExecBasic.vio Proofs/FlowBasic.vio
+Proofs/FlowSem.vos Proofs/FlowSem.vok Proofs/FlowSem.required_vos: Proofs/FlowSem.v Model.vos Spec/Stack.vos Spec/Exec.vos Proofs/Trace.vos Proofs/InvNames.vos Proofs/InvLabels.vos Proofs/Resolve.vos Proofs/ExecBasic.vos Proofs/FlowBasic.vos
+Proofs/FlowExpr.vo Proofs/FlowExpr.glob Proofs/FlowExpr.v.beautified Proofs/FlowExpr.required_vo: Proofs/FlowExpr.v Model.vo Spec/Stack.vo Spec/Exec.vo Proofs/Trace.vo Proofs/InvNames.vo Proofs/InvLabels.vo Proofs/Resolve.vo Proofs/ExecBasic.vo Proofs/FlowBasic.vo Proofs/FlowSem.vo
+Proofs/FlowExpr.vio: Proofs/FlowExpr.v Model.vio Spec/Stack.vio Spec/Exec.vio Proofs/Trace.vio Proofs/InvNames.vio Proofs/InvLabels.vio Proofs/Resolve.vio Proofs/ExecBasic.vio Proofs/FlowBasic.vio Proofs/FlowSem.vio
+Proofs/FlowExpr.vos Proofs/FlowExpr.vok Proofs/FlowExpr.required_vos: Proofs/FlowExpr.v Model.vos Spec/Stack.vos Spec/Exec.vos Proofs/Trace.vos Proofs/InvNames.vos Proofs/InvLabels.vos Proofs/Resolve.vos Proofs/ExecBasic.vos Proofs/FlowBasic.vos Proofs/FlowSem.vos
+Proofs/FlowFrag.vo Proofs/FlowFrag.glob Proofs/FlowFrag.v.beautified Proofs/FlowFrag.required_vo: Proofs/FlowFrag.v Model.vo Spec/Stack.vo Spec/Exec.vo Proofs/ExecBasic.vo Proofs/FlowBasic.vo Proofs/FlowSem.vo
+Proofs/FlowFrag.vio: Proofs/FlowFrag.v Model.vio Spec/Stack.vio Spec/Exec.vio Proofs/ExecBasic.vio Proofs/FlowBasic.vio Proofs/FlowSem.vio
+Proofs/FlowFrag.vos Proofs/FlowFrag.vok Proofs/FlowFrag.required_vos: Proofs/FlowFrag.v Model.vos Spec/Stack.vos Spec/Exec.vos Proofs/ExecBasic.vos Proofs/FlowBasic.vos Proofs/FlowSem.vos
+Proofs/FlowSim.vo Proofs/FlowSim.glob Proofs/FlowSim.v.beautified Proofs/FlowSim.required_vo: Proofs/FlowSim.v Model.vo Spec/Stack.vo Spec/Exec.vo Mon/Control.vo Proofs/Trace.vo Proofs/InvNames.vo Proofs/InvLabels.vo Proofs/Resolve.vo Proofs/ExecBasic.vo Proofs/FlowBasic.vo Proofs/FlowSem.vo Proofs/FlowExpr.vo Proofs/FlowFrag.vo
+Proofs/FlowSim.vio: Proofs/FlowSim.v Model.vio Spec/Stack.vio Spec/Exec.vio Mon/Control.vio Proofs/Trace.vio Proofs/InvNames.vio Proofs/InvLabels.vio Proofs/Resolve.vio Proofs/ExecBasic.vio Proofs/FlowBasic.vio Proofs/FlowSem.vio Proofs/FlowExpr.vio Proofs/FlowFrag.vio
+Proofs/FlowSim.vos Proofs/FlowSim.vok Proofs/FlowSim.required_vos: Proofs/FlowSim.v Model.vos Spec/Stack.vos Spec/Exec.vos Mon/Control.vos Proofs/Trace.vos Proofs/InvNames.vos Proofs/InvLabels.vos Proofs/Resolve.vos Proofs/ExecBasic.vos Proofs/FlowBasic.vos Proofs/FlowSem.vos Proofs/FlowExpr.vos Proofs/FlowFrag.vos
+Properties/C05.vo Properties/C05.glob Properties/C05.v.beautified Properties/C05.required_vo: Properties/C05.v Model.vo Spec/Stack.vo Spec/Exec.vo Mon/Control.vo Proofs/FlowBasic.vo Proofs/FlowSim.vo
+Properties/C05.vio: Properties/C05.v Model.vio Spec/Stack.vio Spec/Exec.vio Mon/Control.vio Proofs/FlowBasic.vio Proofs/FlowSim.vio
+Properties/C05.vos Properties/C05.vok Properties/C05.required_vos: Properties/C05.v Model.vos Spec/Stack.vos Spec/Exec.vos Mon/Control.vos Proofs/FlowBasic.vos Proofs/FlowSim.vos
+Proofs/TypedDefs.vo Proofs/TypedDefs.glob Proofs/TypedDefs.v.beautified Proofs/TypedDefs.required_vo: Proofs/TypedDefs.v Model.vo Mon/C04.vo
+Proofs/TypedDefs.vio: Proofs/TypedDefs.v Model.vio Mon/C04.vio
+Proofs/TypedDefs.vos Proofs/TypedDefs.vok Proofs/TypedDefs.required_vos: Proofs/TypedDefs.v Model.vos Mon/C04.vos
+Proofs/TypedMon.vo Proofs/TypedMon.glob Proofs/TypedMon.v.beautified Proofs/TypedMon.required_vo: Proofs/TypedMon.v Model.vo Spec/Stack.vo Spec/Tables.vo Mon/C04.vo
+Proofs/TypedMon.vio: Proofs/TypedMon.v Model.vio Spec/Stack.vio Spec/Tables.vio Mon/C04.vio
+Proofs/TypedMon.vos Proofs/TypedMon.vok Proofs/TypedMon.required_vos: Proofs/TypedMon.v Model.vos Spec/Stack.vos Spec/Tables.vos Mon/C04.vos
+Proofs/TypedWf.vo Proofs/TypedWf.glob Proofs/TypedWf.v.beautified Proofs/TypedWf.required_vo: Proofs/TypedWf.v Model.vo Spec/FirstViolation.vo Mon/C04.vo Proofs/RulesBasic.vo Proofs/SimExpr.vo Proofs/SimDecl.vo Proofs/Simulation.vo Proofs/Driver.vo Proofs/TypedDefs.vo
+Proofs/TypedWf.vio: Proofs/TypedWf.v Model.vio Spec/FirstViolation.vio Mon/C04.vio Proofs/RulesBasic.vio Proofs/SimExpr.vio Proofs/SimDecl.vio Proofs/Simulation.vio Proofs/Driver.vio Proofs/TypedDefs.vio
+Proofs/TypedWf.vos Proofs/TypedWf.vok Proofs/TypedWf.required_vos: Proofs/TypedWf.v Model.vos Spec/FirstViolation.vos Mon/C04.vos Proofs/RulesBasic.vos Proofs/SimExpr.vos Proofs/SimDecl.vos Proofs/Simulation.vos Proofs/Driver.vos Proofs/TypedDefs.vos
+Proofs/Typed.vo Proofs/Typed.glob Proofs/Typed.v.beautified Proofs/Typed.required_vo: Proofs/Typed.v Model.vo Spec/Stack.vo Spec/Tables.vo Spec/FirstViolation.vo Proofs/Reach.vo Proofs/Trace.vo Proofs/InvReg.vo Proofs/InvNames.vo Proofs/DefUse.vo Proofs/TypedDefs.vo Proofs/TypedMon.vo Proofs/TypedWf.vo Proofs/SimExpr.vo Mon/C04.vo
+Proofs/Typed.vio: Proofs/Typed.v Model.vio Spec/Stack.vio Spec/Tables.vio Spec/FirstViolation.vio Proofs/Reach.vio Proofs/Trace.vio Proofs/InvReg.vio Proofs/InvNames.vio Proofs/DefUse.vio Proofs/TypedDefs.vio Proofs/TypedMon.vio Proofs/TypedWf.vio Proofs/SimExpr.vio Mon/C04.vio
+Proofs/Typed.vos Proofs/Typed.vok Proofs/Typed.required_vos: Proofs/Typed.v Model.vos Spec/Stack.vos Spec/Tables.vos Spec/FirstViolation.vos Proofs/Reach.vos Proofs/Trace.vos Proofs/InvReg.vos Proofs/InvNames.vos Proofs/DefUse.vos Proofs/TypedDefs.vos Proofs/TypedMon.vos Proofs/TypedWf.vos Proofs/SimExpr.vos Mon/C04.vos
+Properties/C04.vo Properties/C04.glob Properties/C04.v.beautified Properties/C04.required_vo: Properties/C04.v Model.vo Spec/FirstViolation.vo Mon/C04.vo Proofs/TypedMon.vo Proofs/Typed.vo Proofs/RulesBasic.vo Spec/ResolverTests.vo
+Properties/C04.vio: Properties/C04.v Model.vio Spec/FirstViolation.vio Mon/C04.vio Proofs/TypedMon.vio Proofs/Typed.vio Proofs/RulesBasic.vio Spec/ResolverTests.vio
+Properties/C04.vos Properties/C04.vok Properties/C04.required_vos: Properties/C04.v Model.vos Spec/FirstViolation.vos Mon/C04.vos Proofs/TypedMon.vos Proofs/Typed.vos Proofs/RulesBasic.vos Spec/ResolverTests.vos
